@@ -241,6 +241,20 @@ func gateSetID(w *World, r *Report) {
 			case *ssa.MapUpdate:
 				bad = "a store into a result map at " + w.ipos(x)
 				return
+			case *ssa.Call:
+				// a private helper that stores into a map it is handed
+				if g := x.Call.StaticCallee(); g != nil && g != fn && inRegion(fn, g) {
+					for _, gb := range g.Blocks {
+						for _, gi := range gb.Instrs {
+							if _, isMU := gi.(*ssa.MapUpdate); isMU {
+								bad = "a store into a result map (through " + shortName(g) + ") at " + w.ipos(x)
+							}
+						}
+					}
+					if bad != "" {
+						return
+					}
+				}
 			case *ssa.Return:
 				bad = "a return at " + w.ipos(x) + " (a foreign packet must be skipped, not end the file)"
 				return
@@ -258,10 +272,12 @@ func gateSetID(w *World, r *Report) {
 	}
 	// all map updates are of the maps returned
 	n := 0
-	for _, b := range fn.Blocks {
-		for _, in := range b.Instrs {
-			if _, ok := in.(*ssa.MapUpdate); ok {
-				n++
+	for _, rf := range region(fn) {
+		for _, b := range rf.Blocks {
+			for _, in := range b.Instrs {
+				if _, ok := in.(*ssa.MapUpdate); ok {
+					n++
+				}
 			}
 		}
 	}
@@ -367,7 +383,25 @@ func gatePar1(w *World, r *Report, probe bool) {
 	// G5
 	if fn := w.Fn("(*par1.Decoder).LoadParityData"); fn != nil {
 		n := 0
-		for _, lit := range fn.AnonFuncs {
+		// the per-volume loader: a function literal of LoadParityData, or a private method it calls
+		// that returns the volume next to an error
+		cands := append([]*ssa.Function{}, fn.AnonFuncs...)
+		for _, rf := range region(fn) {
+			if rf == fn || rf.Parent() != nil {
+				continue
+			}
+			res := rf.Signature.Results()
+			hasVol := false
+			for k := 0; k < res.Len(); k++ {
+				if strings.HasSuffix(typeStr(res.At(k).Type()), "par1.volume") || strings.HasSuffix(typeStr(res.At(k).Type()), ".volume") {
+					hasVol = true
+				}
+			}
+			if hasVol && res.Len() >= 2 && isErrorType(res.At(res.Len()-1).Type()) && w.uniqueSite(rf) != nil && w.uniqueSite(rf).Parent() == fn {
+				cands = append(cands, rf)
+			}
+		}
+		for _, lit := range cands {
 			for i, ret := range successReturns(lit) {
 				n++
 				key := fmt.Sprintf("G5:LoadParityData:accept#%d", i)
@@ -383,11 +417,12 @@ func gatePar1(w *World, r *Report, probe bool) {
 						for _, vc := range callsIn(lit, "(*par1.Decoder).volumePath") {
 							_ = vc
 						}
+						other := w.up(pr[1])
 						for _, vc := range callsIn(fn, "(*par1.Decoder).volumePath") {
-							if stripAllConv(pr[1]) == stripAllConv(resolveSingle(vc.Common().Args[1])) {
+							if stripAllConv(other) == stripAllConv(resolveSingle(vc.Common().Args[1])) {
 								numOK = true
 							}
-							if sameImage(stripAllConv(pr[1]), stripAllConv(vc.Common().Args[1])) || sameNumber(pr[1], vc.Common().Args[1]) || sameLinear(pr[1], vc.Common().Args[1]) {
+							if sameImage(stripAllConv(other), stripAllConv(vc.Common().Args[1])) || sameNumber(other, vc.Common().Args[1]) || sameLinear(other, vc.Common().Args[1]) {
 								numOK = true
 							}
 						}
